@@ -3,6 +3,7 @@
 //                (per variable: x, x_reported, v_fdiff, v_reported, potential/kinetic energy, ft_reported,
 //                applied_force(); per bias: bias_energy, centres, acc_work, abmd reference, alb couplings)
 //   capture      send the module's log to a buffer;  wlog: print which files it reported writing since the last wlog
+//   diskcopy A B copy file A as it is on disk now (no flush) to B
 //   gdump        print the count / force-sum grids of ABF biases and the hills-energy grid of metadynamics biases
 //   flush        flush all output streams of the module (files are then complete on disk)
 //   chdir D      change the working directory (output files are created relative to it)
@@ -72,6 +73,13 @@ struct c19_session : public vsim_session {
           if (f.size() > 4 && f.substr(f.size() - 4) == ".dat") o << "WROTE bias " << f << " it=" << cvm::step_absolute() << "\n";
         }
       }
+      return true;
+    }
+    if (cmd == "diskcopy") {
+      // the file as it is on disk right now (what a crash would leave), without flushing anything
+      std::ifstream in(a[0].c_str(), std::ios::binary);
+      std::ofstream outf(a[1].c_str(), std::ios::binary);
+      if (in) outf << in.rdbuf();
       return true;
     }
     if (cmd == "gdump") {
